@@ -836,6 +836,16 @@ func Main(id string, level string, build func(tier string) Plan, extra func(tier
 
 	if herr != "" {
 		fmt.Fprintln(os.Stderr, "harness error:", herr)
+
+		// The replay guard protects the verdicts of the SCHEDULED pass from nondeterminism the
+		// scheduler does not own.  A data race reported by the free-running pass does not depend on
+		// it — and an unsynchronised access is exactly what makes a controlled schedule diverge — so
+		// under the race oracle such reports stand: the run is a violation, not merely undecided.
+		if pl.Oracle == OrRace && code == 1 && strings.HasPrefix(herr, "nondeterministic replay") {
+			fmt.Fprintln(os.Stderr, "the race reports above do not depend on the replay guard: reported as a violation")
+			os.Exit(1)
+		}
+
 		os.Exit(2)
 	}
 
